@@ -38,10 +38,12 @@ def members_for(assignor, subs, previous=None, generation=1):
     from aiokafka.coordinator.protocol import ConsumerProtocolMemberMetadata
     out = {}
     for m, topics in subs.items():
+        # the topics are listed in the order the caller gives (a member lists its subscription in set order, i.e. any
+        # order; an earlier version sorted them here and so never exercised a non-alphabetical listing: seeded C15-c)
         if assignor.name == "sticky" and previous is not None and m in previous:
-            out[m] = assignor._metadata(sorted(topics), previous[m], generation)
+            out[m] = assignor._metadata(list(topics), previous[m], generation)
         else:
-            out[m] = ConsumerProtocolMemberMetadata(assignor.version, sorted(topics), b"")
+            out[m] = ConsumerProtocolMemberMetadata(assignor.version, list(topics), b"")
     return out
 
 
